@@ -1,5 +1,6 @@
 import IrVerif.Drive.Util
 import IrVerif.Model.Clone
+import IrVerif.Model.Clone2
 /-! Protocol handler for `IrVerif.Clone`: `clone.run` takes a heap (`world`: list of cells, ids are
 list positions) and a `script` (clone entry points and edits, applied in order, each with its own
 outcome; the heap survives a raising step exactly as the Python heap does) and answers the list of
@@ -337,6 +338,14 @@ def handle : Handler := fun m j =>
     -- the scope walker on the source heap (C13_clone_succeeds / C13_clone_raises_iff)
     let w0 ← (← getArr j "world").mapM asCell
     let fuel := (j.getObjValAs? Nat "fuel").toOption.getD 64
+    -- `Model.clone` (C13_model_clone_*): the verdict carries no walker state
+    if let .ok mo := j.getObjValAs? Nat "mo" then
+      match modelVerdict fuel w0 mo with
+      | .ok _ => return obj [("v", "ok")]
+      | .err (.raised why) => return obj [("v", "raised"), ("why", why)]
+      | .err (.unsupported why) => return obj [("v", "unsupported"), ("why", why)]
+      | .err .fuel => return obj [("v", "fuel")]
+      | .irregular why => return obj [("v", "irregular"), ("why", why)]
     let verdict ← match j.getObjValAs? Nat "f" with
       | .ok f => pure (funcVerdict fuel w0 f)
       | .error _ => do pure (cloneVerdict fuel (← getBool j "allow") w0 (← getNat j "g"))
@@ -346,6 +355,15 @@ def handle : Handler := fun m j =>
     | .err (.unsupported why) => return obj [("v", "unsupported"), ("why", why)]
     | .err .fuel => return obj [("v", "fuel")]
     | .irregular why => return obj [("v", "irregular"), ("why", why)]
+  | "clone.vmap" => some do
+    -- the cloner's final value map (C13_wiring_image / C13_value_map_bijection): `cloneGraph` run with a fresh
+    -- cloner state, exactly what `graphClone` runs before it forgets the map
+    let w0 ← (← getArr j "world").mapM asCell
+    let fuel := (j.getObjValAs? Nat "fuel").toOption.getD 64
+    let (r, s') := cloneGraph (← getBool j "allow") fuel (← getNat j "g") { w := w0 }
+    return obj [("outcome", outcomeJ (r.map some)),
+                ("vm", Json.arr (s'.vm.reverse.map fun p => Json.arr #[natJ p.1, natJ p.2]).toArray),
+                ("world", Json.arr (s'.w.map cellJ).toArray)]
   | "clone.functionalize" => some do
     -- `functionalize(pass)(model)` with the pass given as the edit history it performs
     let w0 ← (← getArr j "world").mapM asCell
